@@ -57,7 +57,7 @@ T_SExact(e) ==
   LET k == T_DKind(e) IN
   CASE k = "fraction" -> /\ e.s_portion.x = e.d_frac.x /\ e.s_count.x = T_DCountX(e) /\ e.s_mem.x = "0"
                          \* accounted GPUs (two decimals per device) within half a centi-GPU per device
-                         /\ (T_DCountN(e) <= 64 => Abs(e.s_gpus.n - e.d_frac.n * T_DCountN(e)) <= HalfCenti * T_DCountN(e))
+                         /\ (T_DCountN(e) \in 1..64 => Abs(e.s_gpus.n - e.d_frac.n * T_DCountN(e)) <= HalfCenti * T_DCountN(e))
     [] k = "memory"   -> e.s_mem.x = e.d_mem.x /\ e.s_count.x = T_DCountX(e)
     [] k = "whole"    -> e.s_count.x = e.d_gpu.x /\ e.s_portion.x = "1" /\ e.s_mem.x = "0"
     [] OTHER          -> e.s_count.x = "0" /\ e.s_mem.x = "0"
